@@ -75,6 +75,9 @@ func emitNodeAssemblerMethodAssignNode_mapoid(w io.Writer, adjCfg *AdjunctCfg, d
 			if v.Kind() != datamodel.Kind_Map {
 				return datamodel.ErrWrongKind{TypeName: "{{ .PkgName }}.{{ .Type.Name }}{{ if .IsRepr }}.Repr{{end}}", MethodName: "AssignNode", AppropriateKind: datamodel.KindSet_JustMap, ActualKind: v.Kind()}
 			}
+			if _, err := na.BeginMap(v.Length()); err != nil {
+				return err
+			}
 			itr := v.MapIterator()
 			for !itr.Done() {
 				k, v, err := itr.Next()
